@@ -57,6 +57,10 @@ Definition region (input : list byte) (o : obs) : option nat :=
   | _ => None
   end.
 
+Definition s_lexer : list byte := [x2a; x6c; x65; x78; x65; x72; x29].    (* the receiver type of the lexer methods in a frame name *)
+Definition lexer_panic (o : obs) : bool :=
+  match o with OPanic site => has_infix s_lexer site | _ => false end.
+
 Fixpoint prefixes_ok (input : list byte) (codes : list nat) (k : nat) : bool :=
   match codes with
   | [] => true
@@ -71,7 +75,9 @@ Fixpoint prefixes_ok (input : list byte) (codes : list nat) (k : nat) : bool :=
 Definition classify (c : case) : verdict :=
   match c with
   | CLoad input lexical o =>
-    classify_gen (if lexical then lex_corr input (is_module o) else true) (spec_ok o) (region input o)
+    (* the model also says that the lexer itself never panics (Props/C14.v) *)
+    classify_gen ((if lexical then lex_corr input (is_module o) else true) && negb (lexer_panic o))
+                 (spec_ok o) (region input o)
   | CPrefixes input codes =>
     classify_gen (prefixes_ok input codes 0 && Nat.eqb (length codes) (length input)) true None
   end.
